@@ -175,7 +175,14 @@ pub fn history_plane(rep: &crate::report::Report, nhist: usize, maxlen: usize, s
                 }
                 let line = ins.ir();
                 let mn = ins.class().split(' ').next().unwrap_or("?").to_string();
-                let out = check_ins(b, &ins, &line, &r, &mut agg, core, what, &|c| Some(format!("{}:history:{}:{}", prefix, mn, if c.starts_with("reg:") { "register" } else { c })));
+                let out = check_ins(b, &ins, &line, &r, &mut agg, core, what, &|c| {
+                    // status flags of inc/dec/neg are judged (with their recorded known findings) by the function plane
+                    if c.starts_with("flag:") && matches!(mn.as_str(), "inc" | "dec" | "neg") {
+                        None
+                    } else {
+                        Some(format!("{}:history:{}:{}", prefix, mn, if c.starts_with("reg:") { "register" } else { c }))
+                    }
+                });
                 loc.evals += 1;
                 done += 1;
                 if !out.ok {
